@@ -230,8 +230,28 @@ func c07OrderLayer(c *Ctx) {
 				return
 			}
 			isHash := false
-			if ld, ok := call.Call.Value.(*ssa.UnOp); ok && ld.Op == token.MUL && defaultLayer != nil && ld.X == defaultLayer {
+			argIdx := 0
+			isDirect := func(cl *ssa.Call) bool {
+				ld, ok := cl.Call.Value.(*ssa.UnOp)
+				return ok && ld.Op == token.MUL && defaultLayer != nil && ld.X == defaultLayer
+			}
+			if isDirect(call) {
 				isHash = true
+			} else if h := call.Call.StaticCallee(); h != nil && an.PkgPathOf(h) == core.ModPath && len(h.Blocks) > 0 {
+				// a helper that hands one of its parameters to the hashing function as it is
+				// (mustLayer(key, branchFactor)): the representation is the argument at this call
+				for _, hc := range an.Calls(h) {
+					cl2, ok := hc.(*ssa.Call)
+					if !ok || !isDirect(cl2) || len(cl2.Call.Args) < 1 {
+						continue
+					}
+					for i, hp := range h.Params {
+						if an.Unwrap(cl2.Call.Args[0]) == ssa.Value(hp) && i < len(call.Call.Args) {
+							isHash = true
+							argIdx = i
+						}
+					}
+				}
 			}
 			if !isHash {
 				return
@@ -243,7 +263,7 @@ func c07OrderLayer(c *Ctx) {
 			if rep[tag] == nil {
 				rep[tag] = map[string]bool{}
 			}
-			rep[tag][an.Unwrap(call.Call.Args[0]).Type().String()] = true
+			rep[tag][an.Unwrap(call.Call.Args[argIdx]).Type().String()] = true
 		})
 	}
 	if len(rep) < 3 {
